@@ -35,7 +35,9 @@ MANIFEST = {
             "replaced by its instantiated body (arity checked, body labels renamed to names drawn for this expansion, all parameters "
             "substituted simultaneously wherever they occur — compound operands, %push, arguments of nested invocations and of "
             "expression macro calls — with the arguments not re-examined), the suffix counter advanced; same items, hence same bytes or "
-            "same failure. flattenAll iterates this; definitions are collected before flattening. T-asm (C13) ties flatten to "
+            "same failure. FAILURE HALF: an invocation that cannot be expanded fails with exactly the matching error (C10_rejects); if the program with the invocation "
+            "fails with e (other than the recursion limit) the expanded program fails with e (C10_expansion_error); whatever the expanded program yields the invocation yields, "
+            "or stops at the 255-level limit (C10_expansion_conv). flattenAll iterates this; definitions are collected before flattening. T-asm (C13) ties flatten to "
             "Assembler::push / expand_macro. TEXT (C10_text): for the WHOLE surface language — %macro definitions with bodies, invocations, "
             "expression macros, $variables, calls, selector/topic, directives with escaped paths, any legal layout — every structured "
             "program text goes through the full pest interpreter over the regenerated grammar and the walk of parse_asm to exactly one "
